@@ -46,16 +46,14 @@
        with applied term = term satisfies agrees - no restart of that device and no switch of the target to
        "persistent" inside the run (a persistent target is never re-pushed: stated behaviour).  No premise on
        transactions in flight is needed: between two complete invocations the agreement holds even then.
-   Instance (Model/P2Pure.v): C04_lagging_delete_refuted, C04_overlap_apply_refuted, C04_resync_order_nonwf_refuted below
-   the Section.  C04_lagging_delete_refuted is a violation of the property text on the faithful model (candidate genuine
-   defect, Go map order dependent): /a/b = 1 applied; device unreachable; "delete /a" and "/a/c = 3" committed; device
-   back, both applied with the recording loop of reconcileApply visiting the tombstone of /a before the cascaded
-   tombstone of /a/c (o_order = 1): applyChangeToConfig drops deleted ancestors of EVERY value it sets, tombstones
-   included, so the tombstone of /a is removed again and /a/b stays live in Applied.Values although the device deleted
-   it (apply_sound_at fails in that order: Proofs/P2_ConvergeEx.v apply_sound_lagging_delete_refuted).  All
-   transactions APPLIED, configuration SYNCHRONIZED: device = committed configuration <> applied values; after the
-   next connection replacement the complete re-push puts /a/b back on the device: device <> stored configuration at
-   quiescence.  In the order 0 everything agrees.
+   Instance (Model/P2Pure.v): C04_lagging_delete_converges, C04_overlap_apply_refuted, C04_resync_order_nonwf_refuted
+   below the Section.  C04_lagging_delete_converges is the scenario of finding F-23 (repaired in /repo, commit 13d170a):
+   /a/b = 1 applied; device unreachable; "delete /a" and "/a/c = 3" committed; device back, both applied; connection
+   replaced once more.  Before the repair the recording loop of reconcileApply, visiting the tombstone of /a before the
+   cascaded tombstone of /a/c, removed the former again (applyChangeToConfig dropped the deleted ancestors of EVERY
+   value it set, tombstones included): /a/b stayed live in Applied.Values although the device had deleted it, and the
+   next re-push put it back on the device.  Now, in every Go map order of the loops: all transactions APPLIED,
+   configuration SYNCHRONIZED, device = applied values = committed configuration, before and after the last re-push.
 
    What remains partial.
    (1) Invocations cut between the device request and the entry write leave the device AHEAD of the record (complete
@@ -71,10 +69,11 @@
        values (Proofs/P2_ConvergeEx.v: cascading delete, update with inlined values, re-creation beneath an applied
        tombstone, delete with a lagging committed view, status updates with tombstones, re-push in both group orders,
        idempotence; the apply examples in every Go map order of the recording) and on the worlds of a reachable
-       scenario; no general proof over P2Pure.v (sorting / pruning lemmas missing).  They FAIL (i) for a delete applied
-       with a lagging committed view in one of the two orders of the recording (C04_lagging_delete_refuted, above) and
-       (ii) for a change that deletes a path and updates a leaf beneath it (C04_overlap_apply_refuted, device-side
-       facet of the open finding F-14-C03).
+       scenario; no general proof over P2Pure.v (sorting / pruning lemmas missing).  They FAILED for a delete applied
+       with a lagging committed view in one of the two orders of the recording (finding F-23, repaired; now
+       C04_lagging_delete_converges and apply_sound_lagging_delete in every order) and they FAIL for a change that
+       deletes a path and updates a leaf beneath it (C04_overlap_apply_refuted, device-side facet of the open finding
+       F-14-C03).
    (3) "restricted to the transactions whose apply did not fail" is C04_applied_values_change_only (protocol level);
        that a refused change leaves no trace in the values is restore_sound_at.
    (4) "the stored configuration" of the text is the COMMITTED one; the theorems compare the device with the APPLIED
@@ -267,19 +266,17 @@ Section C04.
 End C04.
 
 (** the executable instance: where the obligations fail *)
-Theorem C04_lagging_delete_refuted :
-  lag_summary (x_run (l_lag_b (x_oracle COk))) =
-    ([(1, TApplied); (3, TApplied); (2, TApplied)],
-     [(3, 3, CSynchronized, 2, 2, [(B "/a/c", B "3")], [(B "/a/c", B "3")])], [[(B "/a/c", B "3")]]) /\
-  lag_summary (x_run (l_lag_b (x_oracle1 COk))) =
-    ([(1, TApplied); (3, TApplied); (2, TApplied)],
-     [(3, 3, CSynchronized, 2, 2, [(B "/a/b", B "1"); (B "/a/c", B "3")], [(B "/a/c", B "3")])], [[(B "/a/c", B "3")]]) /\
-  ~ @agrees cmap cmap req dstate overlay nil _ abs_dev_i abs_app_i (x_run (l_lag_b (x_oracle1 COk))) 1 /\
-  lag_summary (x_run (l_lag_c (x_oracle1 COk))) =
-    ([(1, TApplied); (3, TApplied); (2, TApplied)],
-     [(3, 3, CSynchronized, 3, 3, [(B "/a/b", B "1"); (B "/a/c", B "3")], [(B "/a/c", B "3")])],
-     [[(B "/a/b", B "1"); (B "/a/c", B "3")]]).
-Proof. exact lagging_delete_refuted. Qed.
+Theorem C04_lagging_delete_converges :
+  Forall (fun ord =>
+    lag_summary (x_run (l_lag_b (x_oracle_ord ord))) =
+      ([(1, TApplied); (3, TApplied); (2, TApplied)],
+       [(3, 3, CSynchronized, 2, 2, [(B "/a/c", B "3")], [(B "/a/c", B "3")])], [[(B "/a/c", B "3")]]) /\
+    @agrees cmap cmap req dstate overlay nil _ abs_dev_i abs_app_i (x_run (l_lag_b (x_oracle_ord ord))) 1 /\
+    lag_summary (x_run (l_lag_c (x_oracle_ord ord))) =
+      ([(1, TApplied); (3, TApplied); (2, TApplied)],
+       [(3, 3, CSynchronized, 3, 3, [(B "/a/c", B "3")], [(B "/a/c", B "3")])], [[(B "/a/c", B "3")]]) /\
+    @agrees cmap cmap req dstate overlay nil _ abs_dev_i abs_app_i (x_run (l_lag_c (x_oracle_ord ord))) 1) ords6.
+Proof. exact lagging_delete_converges. Qed.
 
 Theorem C04_overlap_apply_refuted :
   wf_change ch_overlap = false /\
@@ -315,6 +312,6 @@ Print Assumptions C04_restart_breaks_only_until_resync.
 Print Assumptions C04_pure_ok_global.
 Print Assumptions C04_converged_inv.
 Print Assumptions C04_converged_partial.
-Print Assumptions C04_lagging_delete_refuted.
+Print Assumptions C04_lagging_delete_converges.
 Print Assumptions C04_overlap_apply_refuted.
 Print Assumptions C04_resync_order_nonwf_refuted.
